@@ -1,11 +1,35 @@
+import os, zlib
 from vlib import core
+
+# message lengths of the CRC family (must match crc_all() in c14_more.inc)
+CRC_LENS = list(range(34)) + [62, 63, 64, 65, 66, 127, 128, 129]
+
+def gen_zlib_table():
+    """zlib.crc32 (IEEE, the polynomial behind crc32b) of the pattern-0 messages, #included by the harness."""
+    path = os.path.join(core.build_dir('C14'), 'crc_zlib.h')
+    vals = []
+    for n in CRC_LENS:
+        msg = bytes((0x9d * (i + 1) + 7 * n) & 0xff for i in range(n))
+        vals.append(zlib.crc32(msg) & 0xffffffff)
+    with open(path, 'w') as fh:
+        fh.write('static const uint32_t C14_ZLIB[%d] = { %s };\n' % (len(vals), ', '.join('0x%08xu' % v for v in vals)))
+    return os.path.dirname(path)
 
 def run(tier):
     rep = core.Report('C14', tier, 'exploration',
-        'every value of 8/16-bit integer types and the boundary set of wider ones; every byte string of length <=2 '
-        '(thorough: <=3) and a structural alphabet to length 6 through Base64; a case is non-trivial when the '
-        'library call succeeded and the full oracle chain (format==canonical, parse-back==value, decode(encode)==x) was evaluated')
-    rep.assumptions = ['references: snprintf for decimal text, a bit-accumulator Base64 written in the harness']
-    b = core.compile_c('C14', 'h_c14', ['harness/C14/h_c14.c'])
+        'integers: every value of the 8/16-bit types and the boundary set (0, +-1, 10^k, 10^k+-1, 16^k, limits) of the wider ones, '
+        'decimal both ways and hexadecimal text -> integer; Base64: every byte string of length <=2 (thorough: <=3) and a structural '
+        'alphabet to length 6; hex: every byte string of length 1..2 and a structural alphabet to length 5 (6); XML entities: all '
+        'strings over {& < > \' " a} to length 6 (7) and over {& < > \' " a ; l t} to length 5 (6); URL: every byte string of length '
+        '1..2 and a 16-symbol alphabet to length 3 (4) under five percent-encoders; CRC-32: every table entry, 8 variants x lengths '
+        '0..33,62..66,127..129 x alignments 0..7 x 3 contents, all 1- and 2-byte messages.  A case is non-trivial when the library '
+        'call succeeded and the whole oracle chain (text == reference, inverse == input, reported length == bytes written) was evaluated')
+    rep.assumptions = ['references written in the harness: snprintf for decimal/hex text, a bit-accumulator Base64, a one-pass '
+                       'XML 1.0 entity encoder, an RFC 3986 percent-encoder, a bit-at-a-time CRC (validated at start against the '
+                       'catalogue check values quoted in crc32.h) plus zlib.crc32 for the IEEE polynomial']
+    inc = gen_zlib_table()
+    b = core.compile_c('C14', 'h_c14', ['harness/C14/h_c14.c', core.repo_src('utils', 'buf_str.c'), core.repo_src('utils', 'xml.c'),
+                                        core.repo_src('proto', 'http.c')],
+                       flags=['-DC14_HAVE_ZLIB_TABLE', '-I' + inc, '-I' + os.path.join(core.VERIF, 'harness', 'C14')])
     core.run_sharded(rep, b, tier)
     rep.finish(core.make_replayer(lambda cfg: b, tier))
